@@ -212,6 +212,11 @@ def gen_program(rng, big=False, threaded=False, nprocs=None, par=False, v2=False
             ops.append('isrec')
     if threaded:
         ops = [f'@{rng.randrange(4)} {o}' for o in ops]
+    if rng.random() < 0.12:
+        # a processor attached to the provider while the span is in flight (TracerProvider::AddProcessor): it saw no OnStart,
+        # has no recordable of this span and must see nothing of it
+        for _ in range(rng.choice([1, 1, 2])):
+            ops.insert(rng.randrange(len(ops) + 1), f'addproc {rng.choice("ssb")}')
     if par:
         # a concurrent section: 2-4 threads, each with its own keys / event names (first byte = its digit)
         sec = []
@@ -238,6 +243,8 @@ def gen_program(rng, big=False, threaded=False, nprocs=None, par=False, v2=False
 
 def corpus():
     C = lambda line, *tags: Case(line, H, ('corpus',) + tags, 'corpus')
+    _late = [C('span s 72 6c/-/- 6e 0 0 0 - - ; attr 6b i:1 ; addproc s ; attr 6b i:2 ; end 0', 'addproc-mid-flight'),
+             C('span sb 72 6c/-/- 6e 0 0 0 6b=i:1 - ; addproc b ; addproc s ; ev 65 ; end 0 ; flush', 'addproc-mid-flight')]
     base = 'span sb 7265 6c6962/31/- 6e616d65 1 1000 5000'
     out = [
         C(base + ' 61=i:5,62=s:6869,61=c:410042 00112233445566778899aabbccddeeff/0102030405060708/01/6b=B:1.0 ; attr 61 l:-7 ; '
@@ -280,7 +287,7 @@ def corpus():
                 'span s 00 -/-/- 6e 0 0 0 - - ; par ; @1 attr 30 i:1', 'span s 00 -/-/- 6e 0 0 0 - - ; par ; @1 end 5', 'span s 00 -/-/- 6e 0 0 0 - - ; @1 par',
                 'span s 00 -/-/- 6e 0 0 0 - - ; par ; @1 ev -'):
         out.append(C(bad, 'malformed'))
-    return out + [c for m in SUBS for c in m.corpus()]
+    return out + _late + [c for m in SUBS for c in m.corpus()]
 
 
 def generate(rng, tier):
@@ -482,6 +489,7 @@ def spec_expected(line):
         elif k == 'name' and len(o) == 2: parsed.append(('name', _hex(o[1])))
         elif k == 'end' and len(o) == 2: parsed.append(('end', _int(o[1], *I64)))
         elif k in ('flush', 'isrec') and len(o) == 1: parsed.append((k,))
+        elif k == 'addproc' and len(o) == 2 and o[1] in ('s', 'b') and tag is None: parsed.append(('addproc',))
         elif v2 and k == 'link' and len(o) == 2:
             ls = p_links(o[1])
             if len(ls) != 1:
@@ -496,7 +504,7 @@ def spec_expected(line):
         elif o[0] == 'end':
             if not ended:
                 ended, end_opt = True, o[1]
-        elif ended or o[0] == 'flush':
+        elif ended or o[0] in ('flush', 'addproc'):
             continue                     # after End nothing changes
         elif o[0] == 'attr': writes.append((o[1], o[2]))
         elif o[0] == 'links': links.extend(o[1])
@@ -530,14 +538,27 @@ def oracle(case, out):
     return _oracle(case, out)
 
 
+def late_procs(line):
+    """kinds of the processors attached with `addproc` while the span is in flight"""
+    return re.findall(r' ; addproc ([sb])(?= ;|$)', line)
+
+
 def model_line(case, out):
     m = _sub(case)
-    return m.model_line(case, out) if m and hasattr(m, 'model_line') else case.line
+    if m and hasattr(m, 'model_line'):
+        return m.model_line(case, out)
+    # the model has the configured processors only: a processor attached mid-flight sees nothing of the span
+    return re.sub(r' ; addproc [sb](?= ;|$)', '', case.line)
 
 
 def agree(case, out, mout):
     m = _sub(case)
-    return m.agree(case, out, mout) if m and hasattr(m, 'agree') else out == mout
+    if m and hasattr(m, 'agree'):
+        return m.agree(case, out, mout)
+    late = late_procs(case.line)
+    if late and not out.startswith(('CRASH', 'bad-op')):
+        out = ' | '.join(out.split(' | ')[:len(out.split(' | ')) - len(late)])
+    return out == mout
 
 
 def _oracle(case, out):
@@ -552,8 +573,14 @@ def _oracle(case, out):
     parts = out.split(' | ')
     if parts[0] != 'rec=[' + ','.join(rec) + ']':
         return ('is-recording-until-first-End', f'got {parts[0]} want rec=[{",".join(rec)}]')
-    if len(parts) - 1 != len(procs):
-        return ('each-processor-notified-exactly-once', f'{len(parts) - 1} processors reported, {len(procs)} configured')
+    late = late_procs(case.line)
+    if len(parts) - 1 != len(procs) + len(late):
+        return ('each-processor-notified-exactly-once', f'{len(parts) - 1} processors reported, {len(procs)} configured + {len(late)} attached later')
+    for j, k in enumerate(late):
+        i = len(procs) + j
+        if parts[1 + i] != f'p{i}:{k}:start=0:end=0:x=[]':
+            return ('processor-attached-mid-flight-sees-nothing-of-the-span', f'processor {i}: {parts[1 + i][:160]}')
+    parts = parts[:1 + len(procs)]
     copies = []
     for i, seg in enumerate(parts[1:]):
         m = re.fullmatch(r'p(\d+):([sb]):start=(\d+):end=(\d+):x=\[(.*)\]', seg)
